@@ -3,6 +3,7 @@
 from ..r_protocol import run_protocol
 from ..r_rings import rule_one_graph, rule_ring_marks
 from ..r_hygiene import rule_hygiene as _rule_hygiene
+from ..r_rings import rule_hybridization_table as _rule_hyb
 
 LEVEL = 'other'
 
@@ -14,3 +15,4 @@ def run(ck, repo):
     # marks are refreshed and ring caches dropped after every topology write
     run_protocol(ck, repo, 'C06.D2-refreshed', only_dims={'LABELS', 'KEEP'})
     _rule_hygiene(ck, repo, 'C06.H-dataflow-hygiene', 'C06')
+    _rule_hyb(ck, repo, 'C06.D4-hybridization')
